@@ -31,4 +31,15 @@ Section Final.
     - apply rose_canon_root with (numeric := numeric) (numok := numok); assumption.
     - apply write_canon_root with (numeric := numeric) (numok := numok); assumption.
   Qed.
+
+  (** whatever tree the reader returns for the writer's text, writing it again gives the
+      same bytes and it has the same rose view (deterministic form of [round_trip]) *)
+  Corollary rewrite_identical : forall t t', wfN numeric numok t = true ->
+      parse numeric parse_num (write fmt t) = POk t' ->
+      write fmt t' = write fmt t /\ rose_eqb (rose_of t') (rose_of t) = true.
+  Proof.
+    intros t t' Hwf Hp. rewrite (parse_write t Hwf) in Hp. inversion Hp; subst t'. split.
+    - apply write_canon_root with (numeric := numeric) (numok := numok); assumption.
+    - apply rose_canon_root with (numeric := numeric) (numok := numok); assumption.
+  Qed.
 End Final.
